@@ -968,6 +968,20 @@ func (e *Encoder) ret(in *ssa.Return, st *State, pc string) {
 		kind := fmt.Sprintf("post%d@ret%d", i, retK)
 		o := e.addObl(kind, en.Text, pc, s)
 		o.Name = strings.TrimSuffix(o.Name, "#0")
+		for _, r := range in.Results {
+			v := e.val(r)
+			tag := ""
+			switch {
+			case isBool(v.T):
+				tag = "bool"
+			case isInt(v.T) && e.mode == ModeInt:
+				tag = "int"
+			case isInt(v.T):
+				w, _, _ := intInfo(v.T)
+				tag = fmt.Sprintf("bv%d", w)
+			}
+			o.Results = append(o.Results, ResultTerm{Term: v.S, Sort: tag})
+		}
 	}
 	if e.fc.HasMod && e.primary {
 		e.frameObl(st, pc, env)
